@@ -262,10 +262,10 @@ pub fn run(rep: &mut Report) {
         rep.bound("compose", "sign x (at most two non-zero fields from the 12-value boundary set)");
         sweep(rep, "c02.compose", cc.len() as u64, |i, out| j_compose(cc[i as usize].0, cc[i as usize].1, out));
     } else {
-        rep.bound("compose", "sign {-1,0,1} x full product of 7 fields over the 12-value boundary set (3 x 12^7)");
+        rep.bound("compose", "sign {i8::MIN,-1,0,1,i8::MAX} x full product of 7 fields over the 12-value boundary set (5 x 12^7); far-range: 7 signs x one field at k centuries +-1 unit (k up to 32768) or u64::MAX x a second small field");
         let n7 = 12u64.pow(7);
-        sweep(rep, "c02.compose", 3 * n7, |i, out| {
-            let sign = (i / n7) as i8 - 1;
+        sweep(rep, "c02.compose", 5 * n7, |i, out| {
+            let sign = [i8::MIN, -1, 0, 1, i8::MAX][(i / n7) as usize];
             let mut r = i % n7;
             let mut f = [0u64; 7];
             for slot in f.iter_mut() {
@@ -274,6 +274,39 @@ pub fn run(rep: &mut Report) {
             }
             j_compose(sign, f, out)
         });
+    }
+    // far range: one field alone reaches k centuries (k = 1, 2, 3, 100, 32766, 32767, 32768) +- one of its units, or is
+    // u64::MAX; a second field is small; every sign class of the i8 argument
+    {
+        let w: [i128; 7] = [NS_DAY, 3_600 * NS_S, 60 * NS_S, NS_S, 1_000_000, 1_000, 1];
+        let mut far: Vec<(i8, [u64; 7])> = vec![];
+        for sign in [i8::MIN, -2, -1, 0, 1, 2, i8::MAX] {
+            for i in 0..7 {
+                let mut vals: Vec<u64> = vec![u64::MAX, u64::MAX - 1];
+                for k in [1i128, 2, 3, 100, 32_766, 32_767, 32_768] {
+                    for d in [-1i128, 0, 1] {
+                        let v = k * NPC / w[i] + d;
+                        if v >= 0 && v <= u64::MAX as i128 {
+                            vals.push(v as u64);
+                        }
+                    }
+                }
+                for v in vals {
+                    for j in 0..7 {
+                        if j == i {
+                            continue;
+                        }
+                        for b in [0u64, 1, 59, 999] {
+                            let mut f = [0u64; 7];
+                            f[i] = v;
+                            f[j] = b;
+                            far.push((sign, f));
+                        }
+                    }
+                }
+            }
+        }
+        sweep(rep, "c02.compose[far]", far.len() as u64, |i, out| j_compose(far[i as usize].0, far[i as usize].1, out));
     }
     let max_s = (DMAX / NS_S) as u64;
     let stds: Vec<(u64, u32)> = {
